@@ -1,11 +1,412 @@
 import Operon.Lemmas.C16
 import Operon.Gen.WiringFlow
 /-!
-# C16 — typed wiring
+# C16 — typed wiring: no type/integrity-violating flow; modules run once, in order
+
+Property theorems only.  Model: `Operon/Model/Wiring.lean` (hand-written; tied to `operon_ai/core/wagent.py`
+and `operon_ai/core/wiring_runtime.py` by the differential correspondence of `harness/vf/props/c16.py`, and by
+the extractor E6: `Operon/Gen/WiringFlow.lean` holds the outcomes of the REAL `can_flow_to`, `require_flow_to`,
+`connect`, `_coerce_output`, `_coerce_input` and of the executor's per-wire check on the complete table of data
+types × integrity labels; the `_table` theorems below check every entry against the model).
+
+Everything is stated for all diagrams (any number of modules and ports, any naturals as data types and
+integrity levels), all handler tables `H` (handlers are arbitrary functions of the inputs they are shown,
+returning raw or labelled values under any key set, or raising), all external-input assignments and both
+`enforce_static_checks` settings.
+
+`d.WF` = module names unique (`modules` is a dict).  `d.Accepted` = every wire joins existing ports and obeys
+the flow rule; `c16_built_diagrams_accepted` shows this is what `add_module`/`connect` produce.
 -/
 namespace Operon.Wiring
 
-/-- `required_capabilities` placeholder while the proofs are being written -/
-theorem c16_placeholder : True := trivial
+/-! ## the flow rule -/
+
+/-- `can_flow_to` is true, and `require_flow_to` returns, exactly when the data types are equal and the
+    source integrity is at least the destination's; otherwise `require_flow_to` raises a WiringError. -/
+theorem c16_flow_rule (s t : PortType) :
+    (s.canFlowTo t = true ↔ s.dt = t.dt ∧ s.il ≥ t.il) ∧
+    (s.requireFlowTo t = none ↔ s.dt = t.dt ∧ s.il ≥ t.il) ∧
+    (∀ e, s.requireFlowTo t = some e → e.isWiringError = true) :=
+  ⟨canFlowTo_iff s t, requireFlowTo_none_iff s t, fun _ h => requireFlowTo_isWiringError h⟩
+
+/-- A connection between two existing ports is accepted exactly when source and destination data types are
+    equal and the source integrity is at least the destination's.  Accepting appends exactly that wire;
+    rejecting raises a WiringError and (the result carrying no diagram) changes nothing. -/
+theorem c16_connect_iff (d : Diagram) (a p b q : Nat) :
+    ((∃ d', d.connect a p b q = .ok d') ↔
+      ∃ s t, d.outPort a p = some s ∧ d.inPort b q = some t ∧ s.dt = t.dt ∧ s.il ≥ t.il) ∧
+    (∀ d', d.connect a p b q = .ok d' → d' = { modules := d.modules, wires := d.wires ++ [⟨a, p, b, q⟩] }) ∧
+    (∀ e, d.connect a p b q = .error e → e.isWiringError = true) := by
+  refine ⟨⟨?_, ?_⟩, ?_, fun e h => connect_err h⟩
+  · rintro ⟨d', h⟩
+    obtain ⟨s, t, hs, ht, e1, e2, -⟩ := connect_ok_iff.mp h
+    exact ⟨s, t, hs, ht, e1, e2⟩
+  · rintro ⟨s, t, hs, ht, e1, e2⟩
+    exact ⟨_, connect_ok_iff.mpr ⟨s, t, hs, ht, e1, e2, rfl⟩⟩
+  · intro d' h
+    obtain ⟨s, t, -, -, -, -, hd⟩ := connect_ok_iff.mp h
+    exact hd
+
+/-- Whatever sequence of `add_module` / `connect` calls is made on an empty diagram (calls that raise leave it
+    unchanged): module names are unique, and every wire joins existing ports that satisfy the flow rule. -/
+theorem c16_built_diagrams_accepted (ops : List BuildOp) :
+    (Diagram.build ops).WF ∧ (Diagram.build ops).Accepted :=
+  foldl_apply_preserves ops {} (by simp [Diagram.WF]) (by intro w hw; simp at hw)
+
+/-! ## values on input ports -/
+
+/-- In every execution — successful or raising — of a diagram whose wires were all accepted (or of ANY wire
+    list when `enforce_static_checks` is on), for all handlers and all external inputs: every value recorded
+    on an input port in the report, and every value any handler was shown, sits on a declared port of that
+    module, has that port's data type and at least its required integrity. -/
+theorem c16_delivered_values_typed (d : Diagram) (hwf : d.WF) (H : Nat → Option Handler)
+    (ext : List (Nat × List (Nat × Val))) (enforce : Bool) (hG : enforce = true ∨ d.Accepted) :
+    (∀ recs, (execute d H ext enforce).out = .ok recs → ∀ r ∈ recs, ∃ m, d.findMod r.name = some m ∧
+      ∀ pv ∈ r.inputs, ∃ pt, m.inputs.lookup pv.1 = some pt ∧ pv.2.fits pt) ∧
+    (∀ c ∈ (execute d H ext enforce).calls, ∃ m, d.findMod c.name = some m ∧
+      ∀ pv ∈ c.inputs, ∃ pt, m.inputs.lookup pv.1 = some pt ∧ pv.2.fits pt) := by
+  constructor
+  · intro recs h r hr
+    obtain ⟨st, mi, hinv, hrec, -⟩ := execute_ok (G := True) hwf (fun _ => hG) h
+    subst hrec
+    obtain ⟨m, hf, hin, -, -⟩ := hinv.recMod r hr
+    refine ⟨m, hf, fun pv hpv => ?_⟩
+    rw [hin] at hpv
+    obtain ⟨pt, hl, hfit⟩ := hinv.fit r.name m hf pv hpv
+    exact ⟨pt, hl, hfit trivial⟩
+  · intro c hc
+    obtain ⟨m, hf, -, -, hfit⟩ := (execute_callsOK (G := True) hwf (fun _ => hG)).2 c hc
+    refine ⟨m, hf, fun pv hpv => ?_⟩
+    obtain ⟨pt, hl, hf'⟩ := hfit pv hpv
+    exact ⟨pt, hl, hf' trivial⟩
+
+/-- In a successful run the value on the destination port of every wire is the value recorded on the wire's
+    source port (same payload, same label). -/
+theorem c16_delivered_value_is_source_output (d : Diagram) (hwf : d.WF) (H : Nat → Option Handler)
+    (ext : List (Nat × List (Nat × Val))) (enforce : Bool) (recs : List Rec)
+    (h : (execute d H ext enforce).out = .ok recs) :
+    ∀ w ∈ d.wires, ∃ rs ∈ recs, ∃ rd ∈ recs, rs.name = w.srcM ∧ rd.name = w.dstM ∧
+      ∃ v, rs.outputs.lookup w.srcP = some v ∧ (w.dstP, v) ∈ rd.inputs := by
+  intro w hw
+  obtain ⟨hsrc, hdst, -⟩ := (execute_ok_facts hwf h).2 w hw
+  obtain ⟨st, mi, hinv, hrec, -⟩ := execute_ok (G := False) hwf (fun f => f.elim) h
+  subst hrec
+  obtain ⟨rs, hrs, hrsn, -, v, hlk, hmem⟩ := hinv.flowed w hw hsrc
+  obtain ⟨rd, hrd, hrdn⟩ := mem_order.mp hdst
+  obtain ⟨m, -, hin, -, -⟩ := hinv.recMod rd hrd
+  refine ⟨rs, hrs, rd, hrd, hrsn, hrdn, v, hlk, ?_⟩
+  rw [hin, hrdn]; exact hmem
+
+/-! ## handler outputs -/
+
+/-- If any handler invocation of a run returned, for a declared output port, an explicitly labelled value
+    whose data type or integrity differs from the declaration (higher integrity counts as different), the run
+    raised a WiringError.  No hypothesis on the diagram's wires or on `enforce_static_checks`. -/
+theorem c16_mislabelled_output_rejected (d : Diagram) (hwf : d.WF) (H : Nat → Option Handler)
+    (ext : List (Nat × List (Nat × Val))) (enforce : Bool)
+    (c : Call) (hc : c ∈ (execute d H ext enforce).calls) (hbad : Mislabelled d H c) :
+    ∃ e, (execute d H ext enforce).out = .error e ∧ e.isWiringError = true := by
+  cases h : (execute d H ext enforce).out with
+  | error e => exact ⟨e, rfl, (execute_fail (G := False) hwf (fun f => f.elim) h).2 c hc hbad⟩
+  | ok recs =>
+    obtain ⟨st, mi, hinv, -, hcalls, -⟩ := execute_ok (G := False) hwf (fun f => f.elim) h
+    rw [← hcalls] at hc
+    exact absurd hbad ((inv_calls hinv).2 c hc)
+
+/-- In a successful run every recorded output is what the module's handler returned on the recorded inputs,
+    coerced: it carries exactly the declared data type and integrity of its port, and an explicitly labelled
+    return value was passed through unchanged.  A module without handler has no outputs. -/
+theorem c16_recorded_outputs_exact (d : Diagram) (hwf : d.WF) (H : Nat → Option Handler)
+    (ext : List (Nat × List (Nat × Val))) (enforce : Bool) (recs : List Rec)
+    (h : (execute d H ext enforce).out = .ok recs) :
+    ∀ r ∈ recs, ∃ m, d.findMod r.name = some m ∧ RecGood H m r ∧
+      ∀ p v, r.outputs.lookup p = some v → ∃ pt, m.outputs.lookup p = some pt ∧ v.exact pt := by
+  intro r hr
+  obtain ⟨st, mi, hinv, hrec, -⟩ := execute_ok (G := False) hwf (fun f => f.elim) h
+  subst hrec
+  obtain ⟨m, hf, -, -, hg⟩ := hinv.recMod r hr
+  refine ⟨m, hf, hg, ?_⟩
+  intro p v hlk
+  unfold RecGood at hg
+  split at hg
+  · rw [hg] at hlk; simp at hlk
+  · obtain ⟨raw, -, -, hco⟩ := hg
+    exact (coerceOutputs_ok hco).2.1 p v hlk
+
+/-! ## scheduling -/
+
+/-- In a successful run: the execution order is a permutation of the module names (every module exactly
+    once); the handler invocations are exactly one per module that has a handler, in execution order, on
+    exactly the recorded inputs; every module ran with all its declared input ports filled; and for every
+    wire the source module comes strictly before the destination module in the execution order. -/
+theorem c16_each_module_once_after_feeders (d : Diagram) (hwf : d.WF) (H : Nat → Option Handler)
+    (ext : List (Nat × List (Nat × Val))) (enforce : Bool) (recs : List Rec)
+    (h : (execute d H ext enforce).out = .ok recs) :
+    (recs.map (·.name)).Perm (d.modules.map (·.name)) ∧ (recs.map (·.name)).Nodup ∧
+    (execute d H ext enforce).calls =
+      (recs.filter (fun r => (H r.name).isSome)).map (fun r => ⟨r.name, r.inputs⟩) ∧
+    (∀ r ∈ recs, ∃ m, d.findMod r.name = some m ∧ ∀ pp ∈ m.inputs, hasKey pp.1 r.inputs = true) ∧
+    (∀ w ∈ d.wires, (recs.map (·.name)).idxOf w.srcM < (recs.map (·.name)).idxOf w.dstM) := by
+  obtain ⟨hperm, hwires⟩ := execute_ok_facts hwf h
+  obtain ⟨st, mi, hinv, hrec, hcalls, -⟩ := execute_ok (G := False) hwf (fun f => f.elim) h
+  subst hrec
+  refine ⟨hperm, hinv.nodup, by rw [← hcalls]; exact hinv.callsEq, ?_, fun w hw => (hwires w hw).2.2⟩
+  intro r hr
+  obtain ⟨m, hf, -, hall, -⟩ := hinv.recMod r hr
+  exact ⟨m, hf, hall⟩
+
+/-- In every run, also one that raises: no handler is invoked twice, only modules of the diagram that have a
+    handler are invoked, and each was invoked with every declared input port filled — no partially wired
+    module runs. -/
+theorem c16_no_partially_wired_module_runs (d : Diagram) (hwf : d.WF) (H : Nat → Option Handler)
+    (ext : List (Nat × List (Nat × Val))) (enforce : Bool) :
+    ((execute d H ext enforce).calls.map (·.name)).Nodup ∧
+    ∀ c ∈ (execute d H ext enforce).calls, ∃ m, d.findMod c.name = some m ∧ (H c.name).isSome = true ∧
+      ∀ pp ∈ m.inputs, hasKey pp.1 c.inputs = true := by
+  obtain ⟨h1, h2⟩ := execute_callsOK (d := d) (H := H) (ext := ext) (enforce := enforce) (G := False) hwf
+    (fun f => f.elim)
+  refine ⟨h1, fun c hc => ?_⟩
+  obtain ⟨m, hf, hh, hall, -⟩ := h2 c hc
+  exact ⟨m, hf, hh, hall⟩
+
+/-- Whatever `execute` raises is a WiringError, or the exception of a handler that itself raised, or — only
+    when some wire names a module or port that does not exist, which `connect` never allows — a KeyError.
+    In particular the fuel of the model's loop (the number of modules) never runs out: the scheduling loop
+    terminates within that many scans for every diagram. -/
+theorem c16_only_wiring_errors (d : Diagram) (H : Nat → Option Handler)
+    (ext : List (Nat × List (Nat × Val))) (enforce : Bool) (e : Err)
+    (h : (execute d H ext enforce).out = .error e) :
+    e ≠ .outOfFuel ∧
+    (d.WiresExist → (∀ n hd ins, H n = some hd → hd ins ≠ .raise) → e.isWiringError = true) := by
+  have hc := execute_errClass h
+  constructor
+  · rintro rfl
+    rcases hc with hc | ⟨hc, -⟩ | ⟨hc, -⟩ <;> cases hc
+  · intro hex hnr
+    rcases hc with hc | ⟨-, n, hd, ins, hH, hr⟩ | ⟨-, hne⟩
+    · exact hc
+    · exact absurd hr (hnr n hd ins hH)
+    · exact absurd hex hne
+
+/-- Diagrams that cannot be scheduled raise instead of looping or running anything partially wired:
+    * an input port with two incoming wires, a module with outputs but no handler, or an input port with
+      neither a wire nor an external value: `execute` raises before any handler is invoked (a WiringError when
+      every wire joins existing ports);
+    * a cycle in the wire graph (self-loops included): `execute` raises;
+    and by `c16_only_wiring_errors` the loop always terminates, by `c16_no_partially_wired_module_runs` nothing
+    partially wired ever ran. -/
+theorem c16_unschedulable_raises_no_loop (d : Diagram) (hwf : d.WF) (H : Nat → Option Handler)
+    (ext : List (Nat × List (Nat × Val))) (enforce : Bool) :
+    (((∃ m p, 2 ≤ (d.incoming m p).length) ∨
+      (∃ m ∈ d.modules, m.outputs ≠ [] ∧ H m.name = none) ∨
+      (∃ m ∈ d.modules, ∃ pp ∈ m.inputs, d.incoming m.name pp.1 = [] ∧
+        ∀ ins, (m.name, ins) ∈ ext → pp.1 ∉ keys ins)) →
+      ∃ e, (execute d H ext enforce).out = .error e ∧ (execute d H ext enforce).calls = [] ∧
+        (d.WiresExist → e.isWiringError = true)) ∧
+    ((∃ a, d.Reaches a a) → ∃ e, (execute d H ext enforce).out = .error e) := by
+  constructor
+  · intro hcase
+    have key : ∀ mi, extPhase d ext (fun _ => []) = .ok mi → preflight d H mi ≠ none := by
+      intro mi hext hpre
+      obtain ⟨-, h2, h3⟩ := preflight_none hpre
+      rcases hcase with ⟨m, p, hlen⟩ | ⟨m, hm, hne, hH⟩ | ⟨m, hm, pp, hpp, hinc, hext'⟩
+      · cases hl : d.incoming m p with
+        | nil => simp [hl] at hlen
+        | cons w ws =>
+          have hw : w ∈ d.incoming m p := by simp [hl]
+          simp only [Diagram.incoming, List.mem_filter, Bool.and_eq_true, beq_iff_eq] at hw
+          have := h2 w hw.1
+          rw [hw.2.1, hw.2.2] at this
+          omega
+      · have := (preflightModule_none (h3 m hm)).1 hne
+        simp [hH] at this
+      · rcases (preflightModule_none (h3 m hm)).2 pp hpp with h | h
+        · exact h hinc
+        · rcases extPhase_keys hext m.name pp.1 h with h | ⟨ins, hmem, hk⟩
+          · simp [hasKey] at h
+          · exact hext' ins hmem hk
+    obtain ⟨e, he, hc, hk⟩ := execute_preflight (enforce := enforce) key
+    refine ⟨e, he, hc, fun hex => ?_⟩
+    rcases hk with hk | ⟨-, hne⟩
+    · exact hk
+    · exact absurd hex hne
+  · rintro ⟨a, ha⟩
+    cases h : (execute d H ext enforce).out with
+    | error e => exact ⟨e, rfl⟩
+    | ok recs =>
+      have := reaches_idx (fun w hw => ((execute_ok_facts hwf h).2 w hw).2.2) ha
+      omega
+
+/-! ## capabilities -/
+
+/-- Required capabilities are the union over the modules (as a set: no repetitions). -/
+theorem c16_capabilities_union (d : Diagram) :
+    (∀ c, c ∈ d.requiredCaps ↔ ∃ m ∈ d.modules, c ∈ m.caps) ∧ d.requiredCaps.Nodup := by
+  rw [requiredCaps_eq]
+  exact ⟨fun c => by rw [mem_foldl_caps]; simp, nodup_foldl_caps (by simp)⟩
+
+/-! ## the extracted tables (E6): the real functions, evaluated on every data type × integrity label,
+    agree with the model entry by entry.  `decide` over the complete finite table. -/
+
+section tables
+open Operon.Gen.WiringFlow
+
+private def quads : List (Nat × Nat × Nat × Nat) :=
+  (List.range nDT).flatMap fun a => (List.range nIL).flatMap fun b =>
+  (List.range nDT).flatMap fun c => (List.range nIL).map fun d => (a, b, c, d)
+
+private def tab (f : PortType → PortType → Outcome) : List Row :=
+  quads.map fun (a, b, c, d) => ⟨a, b, c, d, f ⟨a, b⟩ ⟨c, d⟩⟩
+
+private def rawTab (f : PortType → Outcome) : List RawRow :=
+  (List.range nDT).flatMap fun c => (List.range nIL).map fun d => ⟨c, d, f ⟨c, d⟩⟩
+
+private def ofBool (s : PortType) (b : Bool) : Outcome := if b then .accepted s.dt s.il else .rejected
+
+private def ofCoerce : Except Err TV → Outcome
+  | .ok v => .accepted v.dt v.il
+  | .error e => if e.isWiringError then .rejected else .unknown
+
+private def twoModules (s t : PortType) : Diagram :=
+  { modules := [⟨0, [], [(0, s)], []⟩, ⟨1, [(0, t)], [], []⟩], wires := [] }
+
+private def connectProbe (s t : PortType) : Outcome :=
+  match (twoModules s t).connect 0 0 1 0 with
+  | .ok d => if d.wires = [⟨0, 0, 1, 0⟩] then .accepted s.dt s.il else .unknown
+  | .error e => if e.isWiringError then .rejected else .unknown
+
+private def wireProbe (enforce : Bool) (s t : PortType) : Outcome :=
+  let d : Diagram := { modules := (twoModules s t).modules, wires := [⟨0, 0, 1, 0⟩] }
+  match (execute d (fun n => if n = 0 then some (fun _ => .ret [(0, .raw 7)]) else none) [] enforce).out with
+  | .ok [_, r] => (match r.inputs with | [(0, v)] => .accepted v.dt v.il | _ => .unknown)
+  | .ok _ => .unknown
+  | .error e => if e.isWiringError then .rejected else .unknown
+
+/-- the enums are not empty (an extractor that found nothing fails here) -/
+theorem c16_table_domain : 0 < nDT ∧ 0 < nIL := by decide
+
+theorem c16_table_can_flow_to :
+    Gen.WiringFlow.canFlowTo = tab (fun s t => ofBool s (s.canFlowTo t)) := by decide +kernel
+
+theorem c16_table_require_flow_to :
+    Gen.WiringFlow.requireFlowTo = tab (fun s t => ofBool s (s.requireFlowTo t).isNone) := by decide +kernel
+
+theorem c16_table_connect : Gen.WiringFlow.connect = tab connectProbe := by decide +kernel
+
+theorem c16_table_coerce_output :
+    Gen.WiringFlow.coerceOutput = tab (fun s t => ofCoerce (Wiring.coerceOutput (.typed ⟨s.dt, s.il, 41⟩) t)) := by
+  decide +kernel
+
+theorem c16_table_coerce_input :
+    Gen.WiringFlow.coerceInput = tab (fun s t => ofCoerce (Wiring.coerceInput (.typed ⟨s.dt, s.il, 41⟩) t)) := by
+  decide +kernel
+
+theorem c16_table_wire_checked : Gen.WiringFlow.wireChecked = tab (wireProbe true) := by decide +kernel
+
+theorem c16_table_wire_unchecked : Gen.WiringFlow.wireUnchecked = tab (wireProbe false) := by decide +kernel
+
+theorem c16_table_coerce_output_raw :
+    Gen.WiringFlow.coerceOutputRaw = rawTab (fun t => ofCoerce (Wiring.coerceOutput (.raw 13) t)) := by
+  decide +kernel
+
+theorem c16_table_coerce_input_raw :
+    Gen.WiringFlow.coerceInputRaw = rawTab (fun t => ofCoerce (Wiring.coerceInput (.raw 13) t)) := by
+  decide +kernel
+
+end tables
+
+/-! ## Non-vacuity: concrete diagrams and runs meeting the hypotheses -/
+
+section examples
+
+/-- source 0 (out 0 : type 0, TRUSTED) → filter 1 (in 0 : type 0, VALIDATED; out 0 : type 1, VALIDATED) → sink 2
+    (in 0 : type 1, UNTRUSTED; in 1 : type 0 external).  Declared in the order 2, 1, 0 so that scheduling needs
+    three scans. -/
+private def exOps : List BuildOp :=
+  [.addModule ⟨2, [(0, ⟨1, 0⟩), (1, ⟨0, 0⟩)], [], [3]⟩,
+   .addModule ⟨1, [(0, ⟨0, 1⟩)], [(0, ⟨1, 1⟩)], [1, 3]⟩,
+   .addModule ⟨0, [], [(0, ⟨0, 2⟩)], [0]⟩,
+   .connect 0 0 1 0, .connect 1 0 2 0,
+   .connect 1 0 1 0]   -- rejected: type 1 into type 0
+
+private def exD : Diagram := Diagram.build exOps
+
+private def exH : Nat → Option Handler := fun n =>
+  if n = 0 then some (fun _ => .ret [(0, .raw 5)])
+  else if n = 1 then some (fun ins => .ret [(0, .typed ⟨1, 1, (ins.map (·.2.payload)).foldl (· + ·) 0 + 1⟩)])
+  else none
+
+/-- handler of module 1 claims TRUSTED on a port declared VALIDATED -/
+private def exHbad : Nat → Option Handler := fun n =>
+  if n = 1 then some (fun _ => .ret [(0, .typed ⟨1, 2, 9⟩)]) else exH n
+
+private def exExt : List (Nat × List (Nat × Val)) := [(2, [(1, .typed ⟨0, 2, 8⟩)])]
+
+/-- what a run lets the caller see, in a form `decide` can compare -/
+private def view (r : Result) : Option Err × List Nat × List (List (Nat × TV)) × List Nat :=
+  match r.out with
+  | .ok recs => (none, recs.map (·.name), recs.map (·.inputs), r.calls.map (·.name))
+  | .error e => (some e, [], [], r.calls.map (·.name))
+
+example : exD.wires = [⟨0, 0, 1, 0⟩, ⟨1, 0, 2, 0⟩] ∧ exD.modules.map (·.name) = [2, 1, 0] := by decide
+
+example : exD.WF ∧ exD.Accepted := c16_built_diagrams_accepted exOps
+
+/-- a successful run of an accepted diagram with both enforcement settings: the hypotheses of
+    `c16_delivered_values_typed`, `c16_each_module_once_after_feeders`, `c16_recorded_outputs_exact` and
+    `c16_delivered_value_is_source_output` are met, and the order is the dependency order, not the dict order -/
+example :
+    view (execute exD exH exExt true) =
+      (none, [0, 1, 2], [[], [(0, ⟨0, 2, 5⟩)], [(1, ⟨0, 2, 8⟩), (0, ⟨1, 1, 6⟩)]], [0, 1]) ∧
+    view (execute exD exH exExt false) =
+      (none, [0, 1, 2], [[], [(0, ⟨0, 2, 5⟩)], [(1, ⟨0, 2, 8⟩), (0, ⟨1, 1, 6⟩)]], [0, 1]) :=
+  ⟨by decide, by decide⟩
+
+/-- a mislabelling handler invocation: the hypotheses of `c16_mislabelled_output_rejected` are met, and the
+    run raises after having invoked modules 0 and 1 only -/
+example : ∃ c ∈ (execute exD exHbad exExt false).calls, Mislabelled exD exHbad c :=
+  ⟨⟨1, [(0, ⟨0, 2, 5⟩)]⟩, by decide,
+    ⟨1, [(0, ⟨0, 1⟩)], [(0, ⟨1, 1⟩)], [1, 3]⟩, fun _ => .ret [(0, .typed ⟨1, 2, 9⟩)], [(0, .typed ⟨1, 2, 9⟩)],
+    (0, ⟨1, 1⟩), ⟨1, 2, 9⟩, by decide, rfl, rfl, by decide, by decide, by simp [TV.exact]⟩
+
+example : view (execute exD exHbad exExt false) = (some .outputIntegrity, [], [], [0, 1]) := by decide
+
+/-- the three pre-flight cases and the cycle case of `c16_unschedulable_raises_no_loop` are satisfiable -/
+private def exDup : Diagram :=
+  Diagram.build [.addModule ⟨0, [], [(0, ⟨0, 1⟩), (1, ⟨0, 1⟩)], []⟩, .addModule ⟨1, [(0, ⟨0, 1⟩)], [], []⟩,
+    .connect 0 0 1 0, .connect 0 1 1 0]
+
+example : ∃ m p, 2 ≤ (exDup.incoming m p).length := ⟨1, 0, by decide⟩
+example : ∃ m ∈ exD.modules, m.outputs ≠ [] ∧ (fun _ => none : Nat → Option Handler) m.name = none :=
+  ⟨⟨0, [], [(0, ⟨0, 2⟩)], [0]⟩, by decide, by decide, rfl⟩
+example : ∃ m ∈ exD.modules, ∃ pp ∈ m.inputs, exD.incoming m.name pp.1 = [] ∧
+    ∀ ins, (m.name, ins) ∈ ([] : List (Nat × List (Nat × Val))) → pp.1 ∉ keys ins :=
+  ⟨⟨2, [(0, ⟨1, 0⟩), (1, ⟨0, 0⟩)], [], [3]⟩, by decide, (1, ⟨0, 0⟩), by decide, by decide, by simp⟩
+
+private def exCyc : Diagram :=
+  Diagram.build [.addModule ⟨0, [(0, ⟨0, 0⟩)], [(0, ⟨0, 0⟩)], []⟩, .addModule ⟨1, [(0, ⟨0, 0⟩)], [(0, ⟨0, 0⟩)], []⟩,
+    .connect 0 0 1 0, .connect 1 0 0 0]
+
+example : exCyc.Reaches 0 0 :=
+  .step ⟨0, 0, 1, 0⟩ (by decide) (.wire ⟨1, 0, 0, 0⟩ (by decide))
+
+/-- and the cyclic diagram indeed raises "cannot resolve" without invoking anything -/
+example : view (execute exCyc (fun _ => some (fun _ => .ret [(0, .raw 1)])) [] true) =
+    (some .cannotResolve, [], [], []) := by decide
+
+/-- a wire that bypassed `connect` and violates integrity is stopped by `enforce_static_checks` (the guard of
+    `c16_delivered_values_typed` in its first form) and let through without it -/
+private def exRaw : Diagram :=
+  { modules := [⟨0, [], [(0, ⟨0, 0⟩)], []⟩, ⟨1, [(0, ⟨0, 2⟩)], [], []⟩], wires := [⟨0, 0, 1, 0⟩] }
+
+private def exRawH : Nat → Option Handler := fun n => if n = 0 then some (fun _ => .ret [(0, .raw 1)]) else none
+
+example : view (execute exRaw exRawH [] true) = (some .wireIntegrity, [], [], [0]) ∧
+    view (execute exRaw exRawH [] false) = (none, [0, 1], [[], [(0, ⟨0, 0, 1⟩)]], [0]) :=
+  ⟨by decide, by decide⟩
+
+example : exD.requiredCaps = [3, 1, 0] := by decide
+
+end examples
 
 end Operon.Wiring
